@@ -104,6 +104,8 @@ fn classify(r: &mut CaseResult, script: &Script, obs: &Observation) {
     r.class_if(script.max_write.is_some(), "partial_writes");
     r.class_if(flatten(&script.steps).iter().any(|s| matches!(s, Step::StallWrites(_))), "write_backpressure");
     r.class_if(script.foreign_callers, "callers_polled_on_another_thread");
+    r.class_if(script.events_next_cancelled, "events_next_future_dropped_and_recreated");
+    r.class_if(script.shutdown_behaviour != 0, "transport_shutdown_stalls_or_fails");
     r.class_if(script.noise_connection, "second_connection_on_the_thread");
     r.class_if(script.steps.iter().any(|s| matches!(s, Step::Together(_))), "simultaneous_steps");
     r.class_if(script.replies.iter().any(|(_, s)| matches!(s, ReplySpec::Ack { partial, .. } if !partial.is_empty())), "ack_after_partial_output");
@@ -424,7 +426,7 @@ pub fn systematic_scripts(max_len: usize, seeds: u64) -> impl Iterator<Item = Sc
                 let mut replies = Vec::new();
                 let mut k = 0;
                 let steps = digits.iter().map(|d| atom(*d, &mut k, &mut replies)).collect();
-                Script { sched_seed: seed + 1, seg, replies, steps, max_write: None, picture: None, broken_pipe: true, greeting: None, lazy_events: false, version: None, vectored: false, events_polled_last: false, error_kind: 0, real_ms_per_advance: 0, noise_connection: false, greeting_tail: None, foreign_callers: false, shutdown_behaviour: 0 }
+                Script { sched_seed: seed + 1, seg, replies, steps, max_write: None, picture: None, broken_pipe: true, greeting: None, lazy_events: false, version: None, vectored: false, events_polled_last: false, error_kind: 0, real_ms_per_advance: 0, noise_connection: false, greeting_tail: None, foreign_callers: false, shutdown_behaviour: 0, events_next_cancelled: false }
             })
         })
     })
@@ -475,7 +477,7 @@ fn slow_consumer_part() -> Box<dyn crate::core::Part> {
                             steps.push(Step::Advance(101));
                         }
                     }
-                    Script { sched_seed: seed, seg: sim::SegPattern::Whole, replies, steps, max_write: None, picture: None, broken_pipe: true, greeting: None, lazy_events: true, version: None, vectored: false, events_polled_last: false, error_kind: 0, real_ms_per_advance: 0, noise_connection: false, greeting_tail: None, foreign_callers: false, shutdown_behaviour: 0 }
+                    Script { sched_seed: seed, seg: sim::SegPattern::Whole, replies, steps, max_write: None, picture: None, broken_pipe: true, greeting: None, lazy_events: true, version: None, vectored: false, events_polled_last: false, error_kind: 0, real_ms_per_advance: 0, noise_connection: false, greeting_tail: None, foreign_callers: false, shutdown_behaviour: 0, events_next_cancelled: false }
                 })
                 .boxed()
         }),
